@@ -231,3 +231,20 @@ _add('C15',
      'Partial by nature: the Mersenne Twister, numpy generator and copy.deepcopy are trusted library behaviour ("a reseeded generator repeats its stream"); '
      'the model cannot exhibit a library that seed() does not reset. The identity walk is a correspondence obligation (soft clause).',
      technique='Coq theorem about a hand-written object-sharing model + metamorphic bit-for-bit comparison against a fresh interpreter + object identity check')
+
+# ---- T2 statements that landed after the entries above were written (appended to the level text) ----
+CHECKS['C03']['text'] += (
+    " T2 event_step_jrn / engine_journey / Jrn_means (Coq, Inv/Journey.v, 1 250 lines, on Inv/Blocking.v; engine model stage 1): for every configuration, every state + "
+    "record history satisfying the invariant and every oracle, after any number of events the records of each customer chain (each names the node of the next as destination "
+    "and ends when the next begins), the first is at the arrival node, baulk / rejection records are the customer's only record, a customer in node k has a last record naming k "
+    "(or none and arrived there) and as many records as completed visits, and a customer is at the exit exactly when its last record names -1 or is a baulk / rejection. "
+    "K2 ties the model to the code step by step; the extracted test jrn_b (sound) is evaluated on every real snapshot visited TOGETHER WITH the real cumulative record history "
+    "and the real arrival nodes.")
+CHECKS['C14']['text'] += (
+    " T2 engine_horizon (Coq, Inv/Horizon.v on Inv/Clock.v; the loop of simulate_until_max_time over the ENGINE MODEL stage 1, an instance of Loop.v's abstract loop - "
+    "run_until_is_loop): for every configuration, horizon T, state satisfying the invariants (Hzn = Clk + every node's next date is a lower bound of what it has pending) and oracle "
+    "with non-negative service / inter-arrival draws, the loop executes only events due at the clock and dated before T, in non-decreasing order; when it stops on its test nothing "
+    "whatsoever is scheduled before T; conservation holds at return (customers left in place). K2 ties the model to the code; hzn_b (sound) holds on every real snapshot visited.")
+CHECKS['C16']['text'] += (
+    " T2 run_until_split_eq (Coq, Inv/Horizon.v): over the ENGINE MODEL (stage 1) a call of the loop to T1 followed by a call to T >= T1 on the remaining draws IS the call to T, "
+    "for every configuration, state and oracle.")
